@@ -48,6 +48,12 @@ func (fn *Function) Exec(thisValue r.Element, params []r.Element) (r.Element, er
 		case *zerr.IOError:
 			return nil, err
 		case *zerr.Signal:
+			// 结束循环 / 继续循环 act on a loop of THIS method body. One that is left over when
+			// the body ends has no loop to act on (as at the top level of a program): it must
+			// not travel on to a loop of the caller, leaving this call's frame behind
+			if sig := err.(*zerr.Signal); sig.SigType == zerr.SigTypeBreak || sig.SigType == zerr.SigTypeContinue {
+				return nil, NewException(err.Error())
+			}
 			// return the original error AS IS
 			return nil, err
 		case *Exception:
